@@ -425,7 +425,8 @@ func (e *Engine) Express(interest *ndn.EncodedInterest, callback ndn.ExpressCall
 	}
 	lastComp := finalName[len(finalName)-1]
 	if lastComp.Typ == enc.TypeImplicitSha256DigestComponent {
-		impSha256 = lastComp.Val
+		// Copy: the name (and the buffers of its components) belongs to the caller again once Express returns.
+		impSha256 = append([]byte{}, lastComp.Val...)
 		hasImpSha256 = true
 		nodeName = finalName[:len(finalName)-1]
 	}
